@@ -95,24 +95,41 @@ def slack(rep, prog, rule):
     def is_size(e):
         e = strip_widen(e)
         return e[0] == "call" and e[1] == "size"
-    okk = False
-    if size_e[0] == "bin" and size_e[1] == "Add":
-        a, b = strip_widen(size_e[2]), strip_widen(size_e[3])
-        for x, y in ((a, b), (b, a)):
-            if x[0] == "bin" and x[1] == "Mul" and (
-                    (is_count(x[2]) and is_size(x[3])) or (is_count(x[3]) and is_size(x[2]))):
+    def slack_of(e):
+        """('ok'|'none'|'small'|'unk', text) for a byte-size expression"""
+        e = strip_widen(e)
+        if e[0] == "bin" and e[1] == "Add":
+            a, b = strip_widen(e[2]), strip_widen(e[3])
+            for x, y in ((a, b), (b, a)):
+                if x[0] == "bin" and x[1] == "Mul" and (
+                        (is_count(x[2]) and is_size(x[3])) or (is_count(x[3]) and is_size(x[2]))):
+                    if is_size(y) or (y[0] == "call" and y[1] in ("align", "align_of", "size_of")):
+                        return "ok"
+                    if y[0] == "const":
+                        return "ok" if y[1] >= 15 else "small"
+                    return "unk"
+        if e[0] == "bin" and e[1] == "Mul":
+            a, b = strip_widen(e[2]), strip_widen(e[3])
+            for x, y in ((a, b), (b, a)):
                 if is_size(y):
-                    okk = True
-                elif y[0] == "const":
-                    rep.bad(rule, "slack", resize[0].at, "alignment slack is the constant %s; "
-                            "pixel types need up to align-1 = 3 bytes" % y[1]) if y[1] < 3 else None
-                    okk = y[1] >= 3
-    if okk:
+                    if is_count(x):
+                        return "none"
+                    if x[0] == "bin" and x[1] == "Add" and any(is_count(z) for z in (x[2], x[3])):
+                        k = [strip_widen(z) for z in (x[2], x[3]) if not is_count(z)][0]
+                        if k[0] == "const" and k[1] >= 1:
+                            return "ok"
+                        return "unk"
+        return "unk"
+    verdict = slack_of(size_e)
+    if verdict == "ok":
         rep.ok(rule, "slack", resize[0].at, "bytes = %s" % fmt(size_e))
-    elif size_e[0] == "bin" and size_e[1] == "Mul":
+    elif verdict == "none":
         rep.bad(rule, "slack", resize[0].at, "the scratch buffer is sized %s without slack for "
                 "alignment: for pixel types with align > 1 the aligned middle part of a Vec<u8> "
                 "can be one pixel short and `pixels[0..count]` panics" % fmt(size_e))
+    elif verdict == "small":
+        rep.bad(rule, "slack", resize[0].at, "alignment slack in %s is smaller than the largest "
+                "pixel alignment needs" % fmt(size_e))
     else:
         rep.unk(rule, "slack", resize[0].at, "bytes = %s" % fmt(size_e))
     # grow-only test: the resize is guarded by len < size and len is used nowhere else
@@ -179,6 +196,6 @@ def run(rep, tier):
     cfgs = ["x86"] if tier == "quick" else ["x86", "x86-rayon", "arm", "wasm"]
     for cfg, prog in programs(cfgs):
         rep.set_cfg(cfg)
-        write_before_read(rep, prog, "C09.write-before-read")
-        slack(rep, prog, "C09.slack")
-        sizing(rep, prog, "C09.sizing")
+        rep.call(write_before_read, rep, prog, "C09.write-before-read")
+        rep.call(slack, rep, prog, "C09.slack")
+        rep.call(sizing, rep, prog, "C09.sizing")
